@@ -160,6 +160,47 @@ func vrtSeedLedger(db *sql.DB, d *Pegnetd, sc vrtScenario, bals []uint64) {
 	}
 }
 
+// vrtSpecialsAfter: absolute oracle for the one-time adjustments (C15) on the fault-free run:
+// after the two blocks of the scenario the special addresses hold exactly what the schedule says
+// (burn addresses zeroed at their activation, mint credited / burnt at its heights), and nothing
+// else moved (no block of these scenarios carries an entry).
+func vrtSpecialsAfter(db *sql.DB, sc vrtScenario, bals []uint64) {
+	want := make([]uint64, 8)
+	copy(want, bals)
+	switch sc.name {
+	case "old-burn-zeroing":
+		want[0], want[1] = 0, 0
+	case "v202-activation":
+		want[2], want[3] = 0, 0
+	case "v204-mint":
+		want[4] += vrtSpecMintAmount(fat2.PTickerPEG)
+		want[5] += vrtSpecMintAmount(fat2.PTickerUSD)
+	case "v204-burn-minted":
+		want[4], want[5] = 0, 0
+	}
+	specials := []factom.FAAddress{vrtMustAddr(specOldBurnAddr), vrtMustAddr(specBurnAddr), vrtMustAddr(specMintAddr), vrtAddr(0xC3)}
+	k := 0
+	for i, a := range specials {
+		for _, t := range []fat2.PTicker{fat2.PTickerPEG, fat2.PTickerUSD} {
+			got := uint64(vrtBalance(db, a, t))
+			id := "C15.one-time-adjustments-for-exactly-the-specified-amounts"
+			if sc.name == "old-burn-zeroing" && i == 0 {
+				// Known finding D20: the zeroing at 260118 records each zeroed asset with
+				// InsertZeroingCoinbase, which binds -payout as a uint64; database/sql refuses it
+				// for every non-zero payout, NullifyBurnAddress returns at the first held asset
+				// and DBlockSync drops the error: the first held asset is zeroed, later ones are not.
+				if t == fat2.PTickerPEG {
+					id = "C15.old-burn-zeroing-reaches-the-first-held-asset"
+				} else if bals[0] > 0 && bals[1] > 0 {
+					id = "C15.one-time-adjustments-for-exactly-the-specified-amounts@D20"
+				}
+			}
+			vrt.Assert(id, got == want[k])
+			k++
+		}
+	}
+}
+
 func vrtResume(db *sql.DB) *Pegnetd {
 	// what NewPegnetd does at start-up: take the sync height from the database
 	d := new(Pegnetd)
@@ -222,6 +263,9 @@ func VerifSyncLoop() {
 	dbS := vrt.NewFaultDB()
 	dS := vrtNodeOn(dbS)
 	vrtSeedLedger(dbS, dS, sc, bals)
+	// the second replay happens at a later wall-clock second (symbolically every time.Now() is a
+	// fresh value anyway; natively the pause makes a stored wall-clock value differ)
+	time.Sleep(1100 * time.Millisecond)
 	for h := sc.start + 1; h <= tip; h++ {
 		if vrtRunLoop(dS, h, -1, blockTime, nil) {
 			panic("reference run crashed")
@@ -229,6 +273,10 @@ func VerifSyncLoop() {
 		ref = append(ref, vrt.Snapshot(dbS))
 	}
 	vrt.Assert("C02.stepwise-and-continuous-sync-agree", vrt.SameStore(vrt.Snapshot(dbR), ref[2], "pn_sync_version"))
+	// read as C01: two independent replays of the same chain (different processes in effect: separate
+	// databases, separate node objects, different wall-clock instants) end in the same ledger
+	vrt.Assert("C01.independent-replays-agree", vrt.SameStore(vrt.Snapshot(dbR), ref[2], "pn_sync_version"))
+	vrtSpecialsAfter(dbR, sc, bals)
 	// (the reference database dbR made nCalls DB calls; the stepwise one is only a yardstick)
 	nCalls := vrtCallsOf(dbR, c0)
 	vrt.ObserveI64("dbcalls-per-run", int64(nCalls))
